@@ -117,16 +117,18 @@ def run_scenario(shape, edits, vals, expect_exception=None):
     return info, problems
 
 
-def scenario_space(tier, seed, kinds=None, funcs=(False, True), cfis=("none",), anns=("none",), patches=None, doubles=True, data_follows=(False,), multi=True, callee2=(False,), bare=(False,), gaps=(False,)):
+def scenario_space(tier, seed, kinds=None, funcs=(False, True), cfis=("none",), anns=("none",), patches=None, doubles=True, data_follows=(False,), multi=True, callee2=(False,), bare=(False,), gaps=(False,), pes=(False, True)):
     kinds = kinds or list(scen.KINDS)
     patches = patches or ["plain", "jmpL2", "ret", "callg", "jcc", "lab", "lab0", "jmplab", "samehead", "samehead2", "selfloop", "twocalls"]
     rnd = random.Random(seed)
-    for kind, fn, cfi, ann, df, c2, br1, gp in itertools.product(kinds, funcs, cfis, anns, data_follows, callee2, bare, gaps):
-        shape = scen.Shape(kind, fn, cfi, ann, df, c2, br1, gp)
+    for kind, fn, cfi, ann, df, c2, br1, gp, pe in itertools.product(kinds, funcs, cfis, anns, data_follows, callee2, bare, gaps, pes):
+        if pe and (gp or br1 or (tier == "quick" and (ann not in ("none", "block") or cfi not in ("none", "whole")))):
+            continue                        # the file format is crossed with the main dimensions only (all of them in the thorough tier)
+        shape = scen.Shape(kind, fn, cfi, ann, df, c2, br1, gp, pe)
         singles = scen.single_edits(kind, patches)
         for e in singles:
             yield shape, [e]
-        if doubles:
+        if doubles and not (pe and tier == "quick"):
             size = len(scen.KINDS[kind][0])
             def labels(e):
                 return set(scen.PATCHES[e[3]][1]) if e[3] else set()
